@@ -60,6 +60,15 @@ def gen_params(rng, kind, extra_decimals=False):
         r0 = round(rng.uniform(0.0, 0.05), 4)
         p['r'] = [r0] * (p['T'] // 2 + 1) + [round(rng.uniform(0.0, 0.05), 4)] * (p['T'] + 2)
         p['B0'] = round(p['H0'] * rng.uniform(0.3, 0.8), 3)
+        if rng.random() < 0.25:
+            # portfolio share outside [0, 1] (the book's equations put no cap on it): high bill rates, or a strong
+            # transactions motive
+            if rng.random() < 0.7:
+                hi = round(rng.uniform(0.08, 0.14), 4)
+                p['r'] = [r0] * (p['T'] // 2 + 1) + [hi] * (p['T'] + 2)
+                p['l0'], p['l1'] = round(rng.uniform(0.6, 0.7), 3), round(rng.uniform(4, 6), 2)
+            else:
+                p['l0'], p['l2'] = round(rng.uniform(0.05, 0.15), 3), round(rng.uniform(0.3, 0.6), 4)
     return p
 
 
@@ -191,6 +200,9 @@ def iterative_oracle(rng):
     from sfc_models.gl_book.model_SIM_iterative import ModelSIMiterative
     fails = []
     a1, a2, th = round(rng.uniform(0.3, 0.97), 3), round(rng.uniform(0.1, 0.5), 3), round(rng.uniform(0.02, 0.4), 3)
+    if rng.random() < 0.3:
+        # slow contraction (a1*(1-th) up to 0.95): several hundred passes of the inner loop are needed
+        a1, th = round(rng.uniform(0.93, 0.97), 3), round(rng.uniform(0.02, 0.05), 3)
     H0 = round(rng.uniform(0, 100), 2)
     Gs = [round(rng.uniform(5, 40), 2) for _ in range(8)]
     obj = ModelSIMiterative()
